@@ -28,22 +28,77 @@ public final class ExactQ {
             if (!g.equals(BigInteger.ONE)) { n = n.divide(g); d = d.divide(g); }
             this.n = n; this.d = d;
         }
+        /** already reduced, d > 0 */
+        Q(BigInteger n, BigInteger d, boolean reduced) { this.n = n; this.d = d; }
     }
+
+    // Knuth's gcd-saving rational arithmetic (TAOCP 4.5.1): the gcds are taken of the (smaller)
+    // denominators / cross pairs instead of the full-size results.
+    private static Q addQ(Q x, Q y, boolean negate) {
+        BigInteger yn = negate ? y.n.negate() : y.n;
+        if (x.d.equals(BigInteger.ONE) && y.d.equals(BigInteger.ONE)) return new Q(x.n.add(yn), BigInteger.ONE, true);
+        BigInteger g = x.d.gcd(y.d);
+        if (g.equals(BigInteger.ONE)) {
+            return new Q(x.n.multiply(y.d).add(yn.multiply(x.d)), x.d.multiply(y.d), true);
+        }
+        BigInteger xd = x.d.divide(g), yd = y.d.divide(g);
+        BigInteger t = x.n.multiply(yd).add(yn.multiply(xd));
+        if (t.signum() == 0) return new Q(BigInteger.ZERO, BigInteger.ONE, true);
+        BigInteger g2 = t.gcd(g);
+        if (g2.equals(BigInteger.ONE)) return new Q(t, xd.multiply(y.d), true);
+        return new Q(t.divide(g2), xd.multiply(y.d.divide(g2)), true);
+    }
+
+    private static Q mulQ(BigInteger an, BigInteger ad, BigInteger bn, BigInteger bd) {
+        // (an/ad) * (bn/bd), both reduced, denominators positive
+        if (an.signum() == 0 || bn.signum() == 0) return new Q(BigInteger.ZERO, BigInteger.ONE, true);
+        BigInteger g1 = an.gcd(bd), g2 = bn.gcd(ad);
+        if (!g1.equals(BigInteger.ONE)) { an = an.divide(g1); bd = bd.divide(g1); }
+        if (!g2.equals(BigInteger.ONE)) { bn = bn.divide(g2); ad = ad.divide(g2); }
+        return new Q(an.multiply(bn), ad.multiply(bd), true);
+    }
+
+    // Parsed values are cached by the interned token of the string (a bounded map): the same
+    // coefficients are used by thousands of evaluations, and decimal <-> BigInteger conversion of
+    // numbers with hundreds of digits would otherwise dominate.  Large values are written in hex
+    // ("#<hex num>/<hex den>"), small ones in decimal so that TLA+ literals like "6" or "-1/2" work.
+    // Both forms are canonical: a value has exactly one string.
+    private static final int CACHE_MAX = 400_000;
+    private static final java.util.Map<String, Q> CACHE = java.util.Collections.synchronizedMap(
+        new java.util.LinkedHashMap<String, Q>(1 << 16, 0.75f, true) {
+            @Override protected boolean removeEldestEntry(java.util.Map.Entry<String, Q> e) { return size() > CACHE_MAX; }
+        });
 
     private static Q parse(Value v) {
         String s = ((StringValue) v).getVal().toString();
-        int i = s.indexOf('/');
+        Q c = CACHE.get(s);
+        if (c != null) return c;
         try {
-            if (i < 0) return new Q(new BigInteger(s), BigInteger.ONE);
-            return new Q(new BigInteger(s.substring(0, i)), new BigInteger(s.substring(i + 1)));
+            Q q;
+            if (s.startsWith("#")) {
+                int i = s.indexOf('/');
+                q = new Q(new BigInteger(s.substring(1, i), 16), new BigInteger(s.substring(i + 1), 16));
+            } else {
+                int i = s.indexOf('/');
+                if (i < 0) q = new Q(new BigInteger(s), BigInteger.ONE);
+                else q = new Q(new BigInteger(s.substring(0, i)), new BigInteger(s.substring(i + 1)));
+            }
+            CACHE.put(s, q);
+            return q;
         } catch (NumberFormatException e) {
             throw new ArithmeticException("ExactQ: not a rational: \"" + s + "\"");
         }
     }
 
     private static Value fmt(Q q) {
-        if (q.d.equals(BigInteger.ONE)) return new StringValue(q.n.toString());
-        return new StringValue(q.n.toString() + "/" + q.d.toString());
+        String s;
+        if (q.n.bitLength() <= 62 && q.d.bitLength() <= 62) {
+            s = q.d.equals(BigInteger.ONE) ? q.n.toString() : q.n.toString() + "/" + q.d.toString();
+        } else {
+            s = "#" + q.n.toString(16) + "/" + q.d.toString(16);
+        }
+        CACHE.put(s, q);
+        return new StringValue(s);
     }
 
     private static String str(Value v) { return ((StringValue) v).getVal().toString(); }
@@ -53,26 +108,26 @@ public final class ExactQ {
 
     @TLAPlusOperator(identifier = "QAdd", module = "ExactQ", warn = false)
     public static Value add(final Value a, final Value b) {
-        Q x = parse(a), y = parse(b);
-        return fmt(new Q(x.n.multiply(y.d).add(y.n.multiply(x.d)), x.d.multiply(y.d)));
+        return fmt(addQ(parse(a), parse(b), false));
     }
 
     @TLAPlusOperator(identifier = "QSub", module = "ExactQ", warn = false)
     public static Value sub(final Value a, final Value b) {
-        Q x = parse(a), y = parse(b);
-        return fmt(new Q(x.n.multiply(y.d).subtract(y.n.multiply(x.d)), x.d.multiply(y.d)));
+        return fmt(addQ(parse(a), parse(b), true));
     }
 
     @TLAPlusOperator(identifier = "QMul", module = "ExactQ", warn = false)
     public static Value mul(final Value a, final Value b) {
         Q x = parse(a), y = parse(b);
-        return fmt(new Q(x.n.multiply(y.n), x.d.multiply(y.d)));
+        return fmt(mulQ(x.n, x.d, y.n, y.d));
     }
 
     @TLAPlusOperator(identifier = "QDiv", module = "ExactQ", warn = false)
     public static Value div(final Value a, final Value b) {
         Q x = parse(a), y = parse(b);
-        return fmt(new Q(x.n.multiply(y.d), x.d.multiply(y.n)));
+        if (y.n.signum() == 0) throw new ArithmeticException("ExactQ: division by zero");
+        if (y.n.signum() < 0) return fmt(mulQ(x.n, x.d, y.d.negate(), y.n.negate()));
+        return fmt(mulQ(x.n, x.d, y.d, y.n));
     }
 
     @TLAPlusOperator(identifier = "QNeg", module = "ExactQ", warn = false)
